@@ -1706,6 +1706,20 @@ func (w *w1World) checkLiveness(cl *w1SimClient) {
 				}
 			}
 		}
+		if cfg.CSR {
+			// client-side refresh: the expiry in effect is the one granted last by the
+			// OnRefresh handler; the connection gets the grace delay after EVERY expiry,
+			// also after a refresh (a refresh arriving inside the grace delay is in time)
+			for _, r := range cl.refreshes {
+				if r.At < closedAt && r.At > lastAt {
+					expMin, expMax, lastAt = r.Expire, r.Expire, r.At
+				}
+			}
+			s.Probe("c36_client_side_refresh_checked")
+			if cl.isClosed() && cl.closeCode == DisconnectExpired.Code && closedAt < expMin+grace-tol {
+				s.Violate("C36", "expired-before-grace", "connection with client-side refresh closed as expired before expiry + grace delay", "client %d: expiry in effect %v (%d refreshes granted), grace %v, closed as expired at %v", cl.idx, expMin, len(cl.refreshes), grace, closedAt)
+			}
+		}
 		s.Probe("nontrivial:C36")
 		if cl.isClosed() && cl.closeCode == DisconnectExpired.Code && closedAt < expMin-tol {
 			s.Violate("C36", "expired-early", "connection closed as expired before its expiry", "client %d: expiry at %v (after refreshes), closed as expired at %v", cl.idx, expMin, closedAt)
